@@ -21,7 +21,8 @@ type SubData struct {
 
 // ReqData describes a request or response value.
 type ReqData struct {
-	// Kind: 0 value-typed (Req / Resp), 1 pointer-typed (*Req / *Resp), 2 nil.
+	// Kind: 0 value-typed (Req / Resp), 1 pointer-typed (*Req / *Resp), 2 nil,
+	// 3 value-typed NReq / NResp (references only inside nested structs and an array), 4 *NReq / *NResp.
 	Kind  int
 	Text  string
 	Num   int64
@@ -41,10 +42,25 @@ type ReqData struct {
 	OptAttrs *map[string]string
 	// Extra selects what Req.Extra (type any) holds: 0 nil, 1 Sub, 2 *Sub, 3 []any{Sub, *Sub, string, int},
 	// 4 map[string]any{Sub, int, []string}, 5 []Sub — all made from ExtraSub.
-	Extra     int
-	ExtraSub  SubData
+	Extra    int
+	ExtraSub SubData
+	// Nest is used by the nested request kinds (3 value-typed NReq, 4 *NReq) only.
+	Nest      NestData
 	Hidden    string // secure-tagged
 	HiddenRaw []byte // secure-tagged
+}
+
+// NestData describes the nested parts of an NReq / NResp (kinds 3 and 4): Mid (with its Leaf) and the Pair array.
+// NReq.Text, Num and Inner come from the ReqData fields of the same name.
+type NestData struct {
+	Title string
+	Rank  int
+	Items []string          // nil, empty or values
+	Notes map[string]string // nil, empty or entries
+	Ptr   *SubData
+	Subs  []SubData
+	Pin   string // secure-tagged
+	Pair  [2]SubData
 }
 
 // ErrData is one link of a plugins.Error chain.
@@ -173,6 +189,10 @@ var (
 	genStamps = rapid.SliceOfN(genSec, 1, 3)
 	genMarks  = rapid.MapOfN(genShort, genSec, 1, 2)
 	genOpt    = rapid.SliceOfN(genShort, 0, 2)
+
+	// request kinds an action may use: in a sequence (non-check plugins) and in a checks group (check plugins)
+	actionReqKinds = []int{reqValue, reqPointer, reqNestValue, reqNestPointer}
+	checkReqKinds  = []int{reqValue, reqPointer, reqNil, reqNestValue, reqNestPointer}
 )
 
 // genName draws a string that is valid as a name/description (non-blank after TrimSpace).
@@ -232,6 +252,34 @@ func genSubs(t *rapid.T, label string) []SubData {
 	return out
 }
 
+func genNest(t *rapid.T, label string) NestData {
+	n := NestData{
+		Title: genShort.Draw(t, label+".title"),
+		Rank:  rapid.IntRange(0, 9).Draw(t, label+".rank"),
+		Notes: genMap(t, label+".notes"),
+		Subs:  genSubs(t, label+".subs"),
+		Pin:   genShort.Draw(t, label+".pin"),
+	}
+	switch rapid.IntRange(0, 3).Draw(t, label+".items.mode") {
+	case 0:
+	case 1:
+		n.Items = []string{}
+	default:
+		n.Items = genOpt.Draw(t, label+".items")
+		if n.Items == nil {
+			n.Items = []string{}
+		}
+	}
+	if rapid.Bool().Draw(t, label+".hasPtr") {
+		s := genSub(t, label+".ptr")
+		n.Ptr = &s
+	}
+	for i := range n.Pair {
+		n.Pair[i] = genSub(t, fmt.Sprintf("%s.pair%d", label, i))
+	}
+	return n
+}
+
 // genReq draws the description of a request/response of the given kind.
 func genReq(t *rapid.T, label string, kind int) ReqData {
 	r := ReqData{Kind: kind}
@@ -240,6 +288,11 @@ func genReq(t *rapid.T, label string, kind int) ReqData {
 	}
 	r.Text = genName(t, label+".text", "t")
 	r.Num = rapid.Int64Range(-5, 1<<40).Draw(t, label+".num")
+	if kind == reqNestValue || kind == reqNestPointer {
+		r.Inner = genSub(t, label+".inner")
+		r.Nest = genNest(t, label+".nest")
+		return r
+	}
 	r.Flag = rapid.Bool().Draw(t, label+".flag")
 	r.Raw = genBlob(t, label+".raw")
 	r.Inner = genSub(t, label+".inner")
@@ -305,11 +358,10 @@ func genErrChain(t *rapid.T, label string) []ErrData {
 // genAction draws an action. check: the action lives in a checks group (may then use the request-less check plugin).
 // executed: the state class can execute actions, so attempt material is drawn too.
 func genAction(t *rapid.T, label string, check, executed bool) ActionData {
-	maxKind := reqPointer
+	kind := rapid.SampledFrom(actionReqKinds).Draw(t, label+".reqKind")
 	if check {
-		maxKind = reqNil
+		kind = rapid.SampledFrom(checkReqKinds).Draw(t, label+".reqKind")
 	}
-	kind := rapid.IntRange(0, maxKind).Draw(t, label+".reqKind")
 	a := ActionData{
 		Name:    genName(t, label+".name", "a"),
 		Descr:   genName(t, label+".descr", "d"),
